@@ -532,6 +532,9 @@ func ctxOriginOf(v ssa.Value, depth int) ctxOrigin {
 					return ctxOrigin{kind: "derived", root: c, via: name}
 				}
 			}
+			if isContextMaker(c.Common().StaticCallee()) && x.Index == 0 {
+				return ctxOrigin{kind: "derived", root: c, via: "the context helper " + fname(c.Common().StaticCallee())}
+			}
 		}
 	case *ssa.Call:
 		name := calleeFullName(x.Common())
@@ -578,11 +581,18 @@ func ruleCONC3(w *World) []Ob {
 				ctxParam = prm
 			}
 		}
+		if isContextMaker(fn) {
+			continue // judged at its call sites: the operation that receives (ctx, cancel) must defer cancel
+		}
 		for _, f := range family {
 			allInstrs(f, func(in ssa.Instruction) {
 				if c, ok := in.(*ssa.Call); ok {
 					switch calleeFullName(c.Common()) {
 					case "context.WithCancel", "context.WithTimeout", "context.WithDeadline":
+						derive = c
+						nDerive++
+					}
+					if isContextMaker(c.Common().StaticCallee()) {
 						derive = c
 						nDerive++
 					}
@@ -1668,4 +1678,51 @@ func senderContexts(p *Prog, ch ssa.Value, mc ssa.Value, depth int) []*ssa.Funct
 		out = append(out, senderContexts(p, a, mc, depth+1)...)
 	}
 	return out
+}
+
+// isContextMaker: a module helper without a context parameter that derives a cancellable context and hands both the
+// context and its cancel function back to the caller unchanged (operationContext(cfg) (context.Context, context.CancelFunc)).
+func isContextMaker(f *ssa.Function) bool {
+	if f == nil || f.Blocks == nil || f.Signature.Results().Len() != 2 || !isContextType(f.Signature.Results().At(0).Type()) {
+		return false
+	}
+	for _, prm := range f.Params {
+		if isContextType(prm.Type()) {
+			return false
+		}
+	}
+	var derive *ssa.Call
+	n := 0
+	allInstrs(f, func(in ssa.Instruction) {
+		if c, ok := in.(*ssa.Call); ok {
+			switch calleeFullName(c.Common()) {
+			case "context.WithCancel", "context.WithTimeout", "context.WithDeadline":
+				derive = c
+				n++
+			}
+		}
+	})
+	if n != 1 {
+		return false
+	}
+	ok, nr := true, 0
+	allInstrs(f, func(in ssa.Instruction) {
+		r, isR := in.(*ssa.Return)
+		if !isR {
+			return
+		}
+		nr++
+		vals := rr(r)
+		if len(vals) != 2 {
+			ok = false
+			return
+		}
+		for i, v := range vals {
+			ex, isEx := resolve(v).(*ssa.Extract)
+			if !isEx || ex.Tuple != ssa.Value(derive) || ex.Index != i {
+				ok = false
+			}
+		}
+	})
+	return ok && nr > 0
 }
